@@ -17,8 +17,6 @@ Proof.
     + constructor; [|exact Hnd]. intros Hin. apply (Hni x Hin). now left.
     + intros y [<-|Hy]; [exact H1|]. intros HA. apply (Hni y Hy). now right.
 Qed.
-Lemma in_rev_append : forall {X} (a b : list X) x, In x (rev_append a b) <-> In x a \/ In x b.
-Proof. intros. rewrite rev_append_rev, in_app_iff, <- in_rev. tauto. Qed.
 
 Lemma Forall2_impl_in : forall {X Y} (R R' : X -> Y -> Prop) l1 l2,
   Forall2 R l1 l2 -> (forall a b, In a l1 -> R a b -> R' a b) -> Forall2 R' l1 l2.
@@ -149,5 +147,36 @@ Definition FLn (n : nat) : Prop := forall s, FLs n s.
 Lemma shrink_stmt_S : forall k E s st, shrink_stmt (S k) E s st = shrink_step (shrink_stmt k E) E s st.
 Proof. reflexivity. Qed.
 
-(* monotonicity of the state: from the id lemmas of ShrinkProof *)
+(* monotonicity of the state: from the freshness lemmas of ShrinkProof *)
+Lemma shrink_mono : forall k E rho s st t st',
+  ib_stmt m0 s = true -> (m0 <= s_max st)%N -> shrink_stmt k E (rn_stmt rho s) st = SOk (t, st') ->
+  (s_max st <= s_max st')%N /\ exists nd, s_lifted st' = nd ++ s_lifted st.
+Proof.
+  intros k E rho s st t st' Hib Hm H.
+  destruct (shrink_stmt_fr m0 E k _ st t st' H) as [Ha (nd & Hb & _)].
+  - split; [rewrite cbinders_rn; now apply old_only_cbinders | exact Hm].
+  - split; [exact Ha | eauto].
+Qed.
+Lemma lifted_in_mono : forall st st' nd, lifted_in st' -> s_lifted st' = nd ++ s_lifted st -> lifted_in st.
+Proof. intros st st' nd H E d Hd. apply H. rewrite E. apply in_or_app. now right. Qed.
+Lemma inv_st_mono : forall G rho th st st1, inv G rho th st -> (s_max st <= s_max st1)%N -> inv G rho th st1.
+Proof. intros G rho th st st1 [] Hle. constructor; auto. lia. Qed.
+Lemma inv_push : forall G rho th st x c t, inv G rho th st -> ~ In (cid_id x) (cids G) -> (cid_id x <= m0)%N ->
+  inv (mkcb x c t :: G) rho th st.
+Proof.
+  intros G rho th st x c t [] Hni Hle. constructor; auto.
+  - cbn [cids map cbvar]. constructor; auto.
+  - intros i [<-|Hi]; auto.
+  - intros y Hy Hym. apply inv_rho0; [|exact Hym]. intros Hin. apply Hy. now right.
+  - intros y Hy. apply inv_th0. intros Hin. apply Hy. now right.
+  - intros b [<-|Hb].
+    + left. cbn [cbvar]. rewrite inv_rho0; auto. now left.
+    + destruct (inv_rng0 b Hb) as [H|H]; [left; now right | now right].
+Qed.
+Lemma inv_self : forall G rho th st x, inv G rho th st -> ~ In (cid_id x) (cids G) -> (cid_id x <= m0)%N -> th (rho x) = x.
+Proof. intros G rho th st x [] Hni Hle. rewrite inv_rho0; auto. Qed.
 End Base.
+
+Ltac crun0 H Hg := exfalso; eapply crun_0; [exact H | exact Hg].
+Ltac core_step H Hg n :=
+  destruct n as [|n]; [crun0 H Hg | rewrite crun_S in H; cbn [CoreSem.cstep CoreSem.as_int] in H].
